@@ -5,7 +5,31 @@
 #include "hmac_cpp/hmac_utils.hpp"
 #include "hmac_cpp/encoding.hpp"
 #include "hmac_cpp/secret_string.hpp"
+#include <cerrno>
+#include <ctime>
 using namespace hmac_cpp;
+
+// ---- interposed clock (as the repository's own tests do): std::time resolves to this definition ----
+static long long g_now = 0, g_step = 0; static int g_errno = 0; static long g_time_calls = 0;
+extern "C" time_t time(time_t* t) {
+    long long v = g_now + g_step * g_time_calls; ++g_time_calls;
+    if (g_errno) errno = g_errno;
+    if (t) *t = (time_t)v;
+    return (time_t)v;
+}
+static void set_clock(const std::string& now, const std::string& err, const std::string& step) {
+    g_now = strtoll(now.c_str(), 0, 10); g_errno = atoi(err.c_str()) ? 5 : 0; g_step = strtoll(step.c_str(), 0, 10); g_time_calls = 0;
+}
+static std::string ok_int(int v) { char b[32]; snprintf(b, sizeof b, "ok %d", v); return b; }
+static std::string ok_bool(bool v) { return std::string("ok ") + bool_s(v); }
+// evaluate each form under the exception guard, then require agreement
+typedef std::function<std::string()> Thunk;
+static std::string agree_guarded(const std::vector<std::pair<std::string, Thunk> >& fs) {
+    std::vector<std::pair<std::string, std::string> > r;
+    for (size_t i = 0; i < fs.size(); ++i) { g_time_calls = 0; r.push_back(std::make_pair(fs[i].first, guarded(fs[i].second))); }
+    return agree(r);
+}
+#define FORM(name, expr) fs.push_back(std::make_pair(std::string(name), Thunk([&]() -> std::string { return expr; })))
 typedef std::vector<std::pair<std::string, std::string> > Forms;
 
 static TypeHash type_of(const std::string& t) {
@@ -106,6 +130,65 @@ static std::string run(const std::vector<std::string>& a) {
         if (a[1] == "sha1") { hmac_hash::SHA1 c; c.init(); for (unsigned long long i = 0; i < n; i += chunk.size()) c.update(chunk.data(), (size_t)std::min<unsigned long long>(chunk.size(), n - i)); uint8_t d[20]; c.finish(d); return hx(d, 20); }
         if (a[1] == "sha256") { hmac_hash::SHA256 c; c.init(); for (unsigned long long i = 0; i < n; i += chunk.size()) c.update(chunk.data(), (size_t)std::min<unsigned long long>(chunk.size(), n - i)); uint8_t d[32]; c.finish(d); return hx(d, 32); }
         hmac_hash::SHA512 c; c.init(); for (unsigned long long i = 0; i < n; i += chunk.size()) c.update(chunk.data(), (size_t)std::min<unsigned long long>(chunk.size(), n - i)); uint8_t d[64]; c.finish(d); return hx(d, 64);
+    }
+    if (op == "hotp") {
+        TypeHash ty = type_of(a[1]); Bytes k = bx(a[2]); uint64_t c = strtoull(a[3].c_str(), 0, 10); int d = atoi(a[4].c_str());
+        secure_buffer<uint8_t> sk(k.size()); if (!k.empty()) memcpy(sk.data(), k.data(), k.size());
+        std::vector<std::pair<std::string, Thunk> > fs;
+        FORM("ptr", ok_int(get_hotp_code(k.data(), k.size(), c, d, ty)));
+        FORM("vec", ok_int(get_hotp_code(k, c, d, ty)));
+        FORM("vecchar", ok_int(get_hotp_code(chars_of(k), c, d, ty)));
+        FORM("secure", ok_int(get_hotp_code(sk, c, d, ty)));
+        FORM("str", ok_int(get_hotp_code(str_of(k), c, d, ty)));
+        return agree_guarded(fs);
+    }
+    if (op == "totpat") {
+        TypeHash ty = type_of(a[1]); Bytes k = bx(a[2]); uint64_t ts = strtoull(a[3].c_str(), 0, 10); int p = atoi(a[4].c_str()), d = atoi(a[5].c_str());
+        secure_buffer<uint8_t> sk(k.size()); if (!k.empty()) memcpy(sk.data(), k.data(), k.size());
+        std::vector<std::pair<std::string, Thunk> > fs;
+        FORM("ptr", ok_int(get_totp_code_at(k.data(), k.size(), ts, p, d, ty)));
+        FORM("vec", ok_int(get_totp_code_at(k, ts, p, d, ty)));
+        FORM("vecchar", ok_int(get_totp_code_at(chars_of(k), ts, p, d, ty)));
+        FORM("secure", ok_int(get_totp_code_at(sk, ts, p, d, ty)));
+        FORM("str", ok_int(get_totp_code_at(str_of(k), ts, p, d, ty)));
+        return agree_guarded(fs);
+    }
+    if (op == "totpnow") {
+        TypeHash ty = type_of(a[1]); Bytes k = bx(a[2]); int p = atoi(a[3].c_str()), d = atoi(a[4].c_str());
+        set_clock(a[5], a[6], a[7]);
+        secure_buffer<uint8_t> sk(k.size()); if (!k.empty()) memcpy(sk.data(), k.data(), k.size());
+        std::vector<std::pair<std::string, Thunk> > fs;
+        FORM("ptr", ok_int(get_totp_code(k.data(), k.size(), p, d, ty)));
+        FORM("vec", ok_int(get_totp_code(k, p, d, ty)));
+        FORM("vecchar", ok_int(get_totp_code(chars_of(k), p, d, ty)));
+        FORM("secure", ok_int(get_totp_code(sk, p, d, ty)));
+        FORM("str", ok_int(get_totp_code(str_of(k), p, d, ty)));
+        return agree_guarded(fs);
+    }
+    if (op == "hotpdg") return ok_int(detail::hotp_from_digest(bx(a[1]), atoi(a[2].c_str())));
+    if (op == "totpvalid") {
+        TypeHash ty = type_of(a[1]); int tok = atoi(a[2].c_str()); Bytes k = bx(a[3]); uint64_t ts = strtoull(a[4].c_str(), 0, 10);
+        int p = atoi(a[5].c_str()), d = atoi(a[6].c_str());
+        secure_buffer<uint8_t> sk(k.size()); if (!k.empty()) memcpy(sk.data(), k.data(), k.size());
+        std::vector<std::pair<std::string, Thunk> > fs;
+        FORM("ptr", ok_bool(is_totp_token_valid(tok, k.data(), k.size(), ts, p, d, ty)));
+        FORM("vec", ok_bool(is_totp_token_valid(tok, k, ts, p, d, ty)));
+        FORM("vecchar", ok_bool(is_totp_token_valid(tok, chars_of(k), ts, p, d, ty)));
+        FORM("secure", ok_bool(is_totp_token_valid(tok, sk, ts, p, d, ty)));
+        FORM("str", ok_bool(is_totp_token_valid(tok, str_of(k), ts, p, d, ty)));
+        return agree_guarded(fs);
+    }
+    if (op == "totpvalidnow") {
+        TypeHash ty = type_of(a[1]); int tok = atoi(a[2].c_str()); Bytes k = bx(a[3]); int p = atoi(a[4].c_str()), d = atoi(a[5].c_str());
+        set_clock(a[6], a[7], a[8]);
+        secure_buffer<uint8_t> sk(k.size()); if (!k.empty()) memcpy(sk.data(), k.data(), k.size());
+        std::vector<std::pair<std::string, Thunk> > fs;
+        FORM("ptr", ok_bool(is_totp_token_valid(tok, k.data(), k.size(), p, d, ty)));
+        FORM("vec", ok_bool(is_totp_token_valid(tok, k, p, d, ty)));
+        FORM("vecchar", ok_bool(is_totp_token_valid(tok, chars_of(k), p, d, ty)));
+        FORM("secure", ok_bool(is_totp_token_valid(tok, sk, p, d, ty)));
+        FORM("str", ok_bool(is_totp_token_valid(tok, str_of(k), p, d, ty)));
+        return agree_guarded(fs);
     }
     if (op == "hmac") return hmac_forms(type_of(a[1]), bx(a[2]), bx(a[3]));
     if (op == "hmacstr") return hmacstr_forms(type_of(a[1]), bx(a[2]), bx(a[3]), a[4] == "1", a[5] == "1");
